@@ -262,3 +262,82 @@ Proof.
   - cbn [obind]. eexists; reflexivity.
   - apply nth_error_None in En. lia.
 Qed.
+
+(* ------------------------------------------------------------------ print_json's crashing_thread indexes are in bounds *)
+Lemma json_crashing_thread_total outs req :
+  (forall i, req = Some i -> (i < length outs)%nat) -> exists r, json_crashing_thread outs req = Ret r.
+Proof.
+  intros Hb. unfold json_crashing_thread. destruct req as [i|]; [|eexists; reflexivity].
+  specialize (Hb i eq_refl). unfold idx. destruct (nth_error outs i) as [t|] eqn:En.
+  2:{ apply nth_error_None in En. lia. }
+  cbn [obind]. destruct (o_frames t) as [|f fs] eqn:Ef; [eexists; reflexivity|].
+  rewrite nth_error_map, En. cbn [option_map obind]. rewrite Ef. cbn [nth_error obind]. eexists; reflexivity.
+Qed.
+
+Lemma render_crashing_thread_total p cpu a os module_at mma cfi_walk iv pi :
+  P5.arch_ok a -> input_ok a pi -> cfi_contract a cfi_walk ->
+  exists r, render_crashing_thread p cpu a os module_at mma cfi_walk iv pi = Ret r.
+Proof.
+  intros Ha Hin Hcfi. unfold render_crashing_thread.
+  destruct (process_threads_total p cpu a os module_at mma cfi_walk iv pi Ha Hin Hcfi) as [outs [E [_ Hb]]].
+  rewrite E. cbn [obind fst snd]. apply json_crashing_thread_total. exact Hb.
+Qed.
+
+(* ------------------------------------------------------------------ all frames of the state against the size of the input *)
+Lemma chosen_stack_from mem t c m :
+  wf_regions mem -> choose_stack_memory mem t c = Some m -> In m mem \/ th_stack t = Some m.
+Proof.
+  intros Hwf.
+  assert (Hat : forall x, memory_at mem x = Some m -> In m mem).
+  { intros x E. apply memory_at_sound in E; [exact (proj1 E)|exact Hwf]. }
+  assert (Hts : thread_stack_memory mem t = Some m -> In m mem \/ th_stack t = Some m).
+  { unfold thread_stack_memory. destruct (th_stack t) as [s|]; cbn [opt_or]; intros E; [right; exact E|left; eapply Hat; eauto]. }
+  unfold choose_stack_memory. destruct c as [[r v]|]; [|exact Hts].
+  destruct (match thread_stack_memory mem t with Some m0 => region_reads m0 STACK_PROBE_BYTES (M5.r_sp r) | None => false end);
+    [exact Hts|].
+  destruct (memory_at mem (M5.r_sp r)) as [s|] eqn:E; cbn [opt_or]; [|exact Hts].
+  intros H. inversion H; subst. left. eapply Hat; eauto.
+Qed.
+
+Lemma list_max_in l x : In x l -> (x <= list_max l)%nat.
+Proof.
+  intros H. assert (Hle : (list_max l <= list_max l)%nat) by lia.
+  apply list_max_le in Hle. rewrite Forall_forall in Hle. exact (Hle x H).
+Qed.
+
+Lemma chosen_stack_bytes_le pi t c :
+  wf_regions (pi_memory pi) -> In t (pi_threads pi) ->
+  (stack_bytes (choose_stack_memory (pi_memory pi) t c) <= max_region_bytes pi)%nat.
+Proof.
+  intros Hwf Hin. destruct (choose_stack_memory (pi_memory pi) t c) as [m|] eqn:E; cbn [stack_bytes]; [|lia].
+  unfold max_region_bytes. apply list_max_in. apply in_map_iff. exists m. split; [reflexivity|].
+  apply in_or_app. destruct (chosen_stack_from _ _ _ _ Hwf E) as [H|H]; [left; exact H|right].
+  unfold own_stacks. apply in_flat_map. exists t. split; [exact Hin|]. rewrite H. left; reflexivity.
+Qed.
+
+Lemma total_frames_le (B : nat) ts outs :
+  Forall2 (fun (_ : thread_in) o => (length (o_frames o) <= B)%nat) ts outs -> (total_frames outs <= length ts * B)%nat.
+Proof. induction 1; cbn [total_frames fold_right length]; [lia|]. fold (total_frames l'). lia. Qed.
+
+Lemma Forall2_impl_in {A B} (P Q : A -> B -> Prop) l r :
+  (forall x y, In x l -> P x y -> Q x y) -> Forall2 P l r -> Forall2 Q l r.
+Proof.
+  intros H F. induction F; constructor.
+  - apply H; [left; reflexivity|assumption].
+  - apply IHF. intros a b Ha. apply H. right; exact Ha.
+Qed.
+
+(* the number of frames of the whole ProcessState is at most |threads| x (largest region + 2): processing is bounded by a
+   function of the input alone, whatever the stacks and symbols contain *)
+Lemma process_total_frames p cpu a os module_at mma cfi_walk iv pi :
+  P5.arch_ok a -> input_ok a pi -> cfi_contract a cfi_walk ->
+  exists outs req, process_threads p cpu a os module_at mma cfi_walk iv pi = Ret (outs, req) /\
+    (total_frames outs <= length (pi_threads pi) * (max_region_bytes pi + 2))%nat.
+Proof.
+  intros Ha Hin Hcfi.
+  destruct (process_threads_total p cpu a os module_at mma cfi_walk iv pi Ha Hin Hcfi) as [outs [E [F _]]].
+  exists outs, (requesting_index pi). split; [exact E|]. apply total_frames_le.
+  eapply Forall2_impl_in; [|exact F]. intros t o Ht [_ [_ [Hlen _]]]. cbn beta.
+  destruct Hin as [Hmem _].
+  pose proof (chosen_stack_bytes_le pi t (s0_ctx (initial_stack pi t)) (fun r Hr => proj1 (Hmem r Hr)) Ht). lia.
+Qed.
